@@ -818,6 +818,49 @@ def _line_uniform(model, rep):
                  fn.lineno)
 
 
+def _tet_diagonal(model, rep):
+    """MeshTet1._uniform cuts the inner octahedron of every cell along one
+    of its three diagonals - 'the shortest', which keeps the shapes of the
+    children bounded under repeated refinement (Bey).  The three squared
+    lengths must be Euclidean lengths in R^3: every coordinate row of the
+    point array enters each of them."""
+    R3 = "C12-R3"
+    fn = model.cls("skfem.mesh.mesh_tet_1", "MeshTet1").methods["_uniform"]
+    # lengths: the names compared with '<' to build the case masks
+    cmp_names = set()
+    for n in walk_no_nested(fn.node):
+        if isinstance(n, ast.Compare) and isinstance(n.left, ast.Name) and \
+                len(n.comparators) == 1 and isinstance(
+                    n.comparators[0], ast.Name):
+            cmp_names |= {n.left.id, n.comparators[0].id}
+    defs = {}
+    for n in walk_no_nested(fn.node):
+        if isinstance(n, ast.Assign) and len(n.targets) == 1 and isinstance(
+                n.targets[0], ast.Name) and n.targets[0].id in cmp_names:
+            defs[n.targets[0].id] = n
+    if len(defs) != 3:
+        raise AnalysisError(f"MeshTet1._uniform: {len(defs)} compared "
+                            f"diagonal lengths found, 3 expected")
+    for nm, d in sorted(defs.items()):
+        rows = {x.slice.elts[0].value for x in ast.walk(d.value)
+                if isinstance(x, ast.Subscript) and isinstance(
+                    x.slice, ast.Tuple) and isinstance(
+                    x.slice.elts[0], ast.Constant)}
+        cons = f"MeshTet1._uniform:diagonal-length[{nm}]"
+        if rows == {0, 1, 2}:
+            rep.ok(R3, cons, "squared Euclidean length over the three "
+                             "coordinates")
+        else:
+            rep.fail(R3, fn.path, "MeshTet1._uniform", cons,
+                     f"'{nm}' is computed from the coordinate rows "
+                     f"{sorted(rows)} only: the 'shortest' diagonal is the "
+                     f"shortest *projection*, so the octahedra are cut "
+                     f"along a longer diagonal and the cell quality decays "
+                     f"geometrically under repeated refinement (0.188 -> "
+                     f"0.0017 after six steps for a generic cell)",
+                     d.lineno)
+
+
 def _last_writer(rep, rule, clsname, fn):
     """The parent-facet -> child-facet table is filled by vectorised stores
     ``table[row, t2f[slot]] = ...`` over all cells at once.  An interior
@@ -1153,6 +1196,7 @@ def run(model: Model, rep, tier: str) -> None:
         if clsname in ("MeshTri1", "MeshQuad1"):
             _last_writer(rep, "C12-R3", clsname, fn)
     _line_uniform(model, rep)
+    _tet_diagonal(model, rep)
     _count_dispatch(model, rep)
     _r4_warnings(model, rep)
     from ..dgspace import report as _dg_report
